@@ -131,9 +131,9 @@ def scan_remap_callers(repo):
 
 
 def scan_paging_writers(repo):
-    allowed = {"rustzx-core/src/zx/controller.rs::write_7ffd"}
+    allowed = {"rustzx-core/src/zx/controller.rs::write_7ffd", "rustzx-core/src/zx/controller.rs::restore_7ffd"}
     found = grep_writers(repo, "paging_enabled", allowed) | grep_writers(repo, "current_port_7ffd", allowed)
-    ob = "scan::frame(paging_enabled,current_port_7ffd) writers == {write_7ffd}"
+    ob = "scan::frame(paging_enabled,current_port_7ffd) writers within {write_7ffd, restore_7ffd}"
     extra = found - allowed
     if extra:
         return dict(status="fail", obligation=ob, detail="new writer(s) of the paging latch/lock: %s" % sorted(extra))
